@@ -16,4 +16,5 @@ Separate Extraction
   C09Spec.consistent data_ok one_offset_box expansion
   seg_track seg_track_lazy mux_segments read_back read_all itrack_of to_full write_segment
   combine_media read_input read_output no_trex_reliance din_wf din_track single_frag
-  seg_inits seg_mux_init comb_init reseg_init write_mux_segment.
+  seg_inits seg_mux_init comb_init reseg_init write_mux_segment
+  ref_sync_hyps.
